@@ -1,6 +1,6 @@
 (* C13 — Decoding arbitrary bytes never panics and enforces the size limits (native codec).
    Statement file. *)
-From V Require Import Model.Msgs Proofs.WireP Proofs.SafeP.
+From V Require Import Model.Msgs Proofs.WireP Proofs.SafeP Proofs.NormalP.
 
 (* for EVERY byte string, every decoder terminates (Gallina: total by construction, structural recursion
    on declared counts) with a value or an error, never a panic *)
@@ -48,6 +48,25 @@ Theorem C13_accepted_params_within_limits : forall rs bs p r, run_flat (dec_para
   p_cd p <> 0%N /\ (MinNumParts <= len (p_parts p) <= MaxNumParts)%N /\ nonce_ok (p_nonce p) = true.
 Proof. intros rs bs p r H. apply new_params_ok_limits. eapply dec_params_accepts_valid; exact H. Qed.
 Print Assumptions C13_accepted_params_within_limits.
+
+(* ... in full: every accepted state, transaction and message (all types but the four that carry a bare
+   participant map) is well-formed, which bounds every count and every big integer in it: assets,
+   participants, sub-allocations, index-map entries (u16), amounts (MaxBigIntLength), the nonce *)
+Theorem C13_accepted_state_wellformed : forall rs bs s r, run_flat (dec_state rs) bs = Ok (s, r) ->
+  state_wf_rs rs s = true.
+Proof. intros rs bs s r H. exact (proj1 (dec_state_normal rs bs s r H)). Qed.
+Print Assumptions C13_accepted_state_wellformed.
+Theorem C13_accepted_tx_wellformed : forall rs bs t r, run_flat (dec_tx rs) bs = Ok (t, r) -> tx_wf rs t = true.
+Proof. intros rs bs t r H. exact (proj1 (dec_tx_normal rs bs t r H)). Qed.
+Print Assumptions C13_accepted_tx_wellformed.
+Theorem C13_accepted_msg_wellformed : forall rs t bs m r,
+  t <> 4%N /\ t <> 5%N /\ t <> 8%N /\ t <> 9%N -> run_flat (dec_msg_body rs t) bs = Ok (m, r) -> msg_wf rs m = true.
+Proof. intros rs t bs m r Ht H. exact (proj1 (dec_msg_body_normal rs t bs m r Ht H)). Qed.
+Print Assumptions C13_accepted_msg_wellformed.
+Theorem C13_wellformed_bounds_amounts : forall a, alloc_wf a = true ->
+  forall row z, In row (al_bals a) -> In z row -> (0 <= z)%Z /\ bigint_encodable z = true.
+Proof. exact alloc_wf_amounts. Qed.
+Print Assumptions C13_wellformed_bounds_amounts.
 
 (* ... and a header that declares more than the limits is rejected outright *)
 Theorem C13_alloc_header_rejected : forall na np nl rest,
